@@ -58,7 +58,12 @@ fn adversarial_lark() -> BoxedStrategy<String> {
         depth.clone().prop_map(|d| format!("start: T\nT: {}\n", nest("~(", ")", d.min(2000), "\"a\""))),
         depth.clone().prop_map(|d| format!("start: /{}/\n", nest("(", ")", d.min(3000), "a"))),
         depth.clone().prop_map(|d| format!("start: %json {}\n", nest("{\"allOf\":[", "]}", d.min(3000), "{\"type\":\"integer\"}"))),
-        depth.prop_map(|d| format!("start: {}\n", nest("%lark { start: ", " }", d.min(400), "\"a\""))),
+        depth.clone().prop_map(|d| format!("start: {}\n", nest("%lark { start: ", " }", d.min(400), "\"a\""))),
+        // nesting in places other than ( ) [ ]: rule-template arguments, parameter conditions, parameter expressions
+        depth.clone().prop_map(|d| format!("start: {}\n", nest("a{", "}", d, "b"))),
+        depth.clone().prop_map(|d| format!("start: p::0\np::_: \"a\" %if {} | \"b\"\n", nest("not(", ")", d, "bit_set(0)"))),
+        depth.clone().prop_map(|d| format!("start: p::0\np::_: \"a\" %if {} | \"b\"\n", nest("and(bit_set(1), ", ")", d, "bit_set(0)"))),
+        depth.prop_map(|d| format!("start: p::{}\np::_: \"a\" | \"b\"\n", nest("incr(", ")", d.min(5000), "_"))),
         (big.clone(), big.clone()).prop_map(|(a, b)| format!("start: \"a\"{{{},{}}}\n", a, b)),
         (big.clone(), big.clone()).prop_map(|(a, b)| format!("start: x{{{},{}}}\nx: \"a\" | \"b\" x\n", a, b)),
         (big.clone(), big.clone()).prop_map(|(a, b)| format!("start: /a{{{},{}}}/\n", a, b)),
@@ -118,7 +123,18 @@ fn adversarial_schema() -> BoxedStrategy<String> {
         depth.clone().prop_map(|d| nest("{\"anyOf\":[{\"type\":\"null\"},", "]}", d, "{\"type\":\"integer\"}")),
         depth.clone().prop_map(|d| nest("{\"type\":\"array\",\"items\":", "}", d, "{\"type\":\"integer\"}")),
         depth.clone().prop_map(|d| nest("{\"type\":\"object\",\"properties\":{\"a\":", "}}", d, "{\"type\":\"integer\"}")),
-        depth.prop_map(|d| nest("[", "]", d, "1")),
+        depth.clone().prop_map(|d| nest("[", "]", d, "1")),
+        // a long chain of definitions referring to one another (flat text, deep resolution)
+        depth.clone().prop_map(|d| {
+            let mut defs: Vec<String> = (0..d).map(|i| format!("\"d{}\":{{\"$ref\":\"#/$defs/d{}\"}}", i, i + 1)).collect();
+            defs.push(format!("\"d{}\":{{\"type\":\"integer\"}}", d));
+            format!("{{\"$ref\":\"#/$defs/d0\",\"$defs\":{{{}}}}}", defs.join(","))
+        }),
+        depth.prop_map(|d| {
+            let mut defs: Vec<String> = (0..d).map(|i| format!("\"d{}\":{{\"type\":\"array\",\"items\":{{\"$ref\":\"#/$defs/d{}\"}}}}", i, i + 1)).collect();
+            defs.push(format!("\"d{}\":{{\"type\":\"integer\"}}", d));
+            format!("{{\"$ref\":\"#/$defs/d0\",\"$defs\":{{{}}}}}", defs.join(","))
+        }),
         Just("{\"$ref\":\"#\"}".to_string()),
         Just("{\"$ref\":\"#/$defs/a\",\"$defs\":{\"a\":{\"$ref\":\"#/$defs/b\"},\"b\":{\"$ref\":\"#/$defs/a\"}}}".to_string()),
         Just("{\"$defs\":{\"a\":{\"anyOf\":[{\"$ref\":\"#/$defs/a\"},{\"type\":\"null\"}]}},\"$ref\":\"#/$defs/a\"}".to_string()),
